@@ -3,8 +3,8 @@
 
   All theorems are about the model of Model.lean / Client.lean: for EVERY schema `S` accepted by the
   construction rules (`Accepted S`, the transliteration of `schema.New`; the harness compares it with
-  the real verdict on every generated schema) whose root operation types are ungated
-  (`RootsUngated S`), EVERY request feature set `F`, every selection tree and every application
+  the real verdict on every generated schema) whose *query* root type is ungated (`RootsUngated S`;
+  gated mutation / subscription roots are covered: after fix 04 the code treats them as absent), EVERY request feature set `F`, every selection tree and every application
   behaviour (`world`).
 
   Shape: every client-visible function reaches the schema only through the accessors of `View`
@@ -113,12 +113,11 @@ structure ViewAgree (S : Schema) (F : Feats) : Prop where
 
 /-- **view_erase** — accessor by accessor, a request with features `F` against `S` is answered like a
     request with all features against the erased schema. -/
-theorem view_erase (S : Schema) (F : Feats) (hA : Accepted S = true) (hR : RootsUngated S = true) :
-    ViewAgree S F :=
+theorem view_erase (S : Schema) (F : Feats) (hA : Accepted S = true) : ViewAgree S F :=
   have hu := Accepted.nodup hA
   { queryType := rfl
-    mutationType := erase_mutation hA hR
-    subscriptionType := erase_subscription hA hR
+    mutationType := erase_mutation hu
+    subscriptionType := erase_subscription hu
     lookupF := lookupF_erase hu
     typeByName := typeByName_erase hu
     typesListing := typesListing_erase
@@ -158,8 +157,8 @@ structure ViewClosed (S : Schema) (F : Feats) : Prop where
 theorem view_closed (S : Schema) (F : Feats) (hA : Accepted S = true) (hR : RootsUngated S = true) :
     ViewClosed S F :=
   { queryType := query_visible hA hR
-    mutationType := fun _ hm => mutation_visible hA hR hm
-    subscriptionType := fun _ hm => subscription_visible hA hR hm
+    mutationType := fun _ hm => filtered_root_visible hm
+    subscriptionType := fun _ hm => filtered_root_visible hm
     lookupF := fun _ _ h => notHidden_of_lookupF hA h
     typeByName := fun _ _ h => typeByName_closed h
     typesListing := typesListing_closed (Accepted.nodup hA)
@@ -178,15 +177,16 @@ theorem view_closed (S : Schema) (F : Feats) (hA : Accepted S = true) (hR : Root
     enum values, navigation from any of these to any other) is identical to that of the physically
     reduced schema, for every selection tree. -/
 theorem introspect_erase (S : Schema) (F : Feats) (hA : Accepted S = true) (hR : RootsUngated S = true)
-    (q : Sels) : introspect (view S F) q = introspect (view (erase S F) top) q := by
+    (hD : DirArgsVisible S F = true) (q : Sels) :
+    introspect (view S F) q = introspect (view (erase S F) top) q := by
   unfold introspect
-  rw [evalSels_erase hA hR q .root trivial]
+  rw [evalSels_erase hA hR hD q .root trivial]
 
 /-- The same from any introspection object all of whose type names are visible. -/
 theorem introspect_erase_from (S : Schema) (F : Feats) (hA : Accepted S = true) (hR : RootsUngated S = true)
-    (q : Sels) (n : Node) (hn : NodeVis S F n) :
+    (hD : DirArgsVisible S F = true) (q : Sels) (n : Node) (hn : NodeVis S F n) :
     evalSels (view S F) q n = evalSels (view (erase S F) top) q n :=
-  evalSels_erase hA hR q n hn
+  evalSels_erase hA hR hD q n hn
 
 /-- Non-vacuity: probing the gated type by name, the possible types of `Node` and the interfaces of
     `Both` with no feature enabled — `null`, only `Pub`/`Both`, only `Node`. -/
@@ -200,6 +200,53 @@ example :
             ("__type", .obj [("possibleTypes", .arr [.obj [("name", .str "Pub")], .obj [("name", .str "Both")]])]),
             ("__type", .obj [("interfaces", .arr [.obj [("name", .str "Node")]])])] := by
   rfl
+
+/-! ## Directives -/
+
+/-- A directive with an argument of a gated enum type (the F-10g / F-13g shape): `@paint(mode: Mode, n: Int)`, `Mode @a`. -/
+def demoDir : Schema :=
+  { types := [mkT .scalar "Int" [],
+              { (mkT .enum "Mode" ["a"]) with values := ["X", "Y"] },
+              mkT .object "Query" [] [{ name := "ok", ty := .named "Int", req := [], args := [] }]],
+    query := "Query", mutation := none, subscription := none,
+    directives := [{ name := "paint", args := [{ name := "mode", ty := .named "Mode" }, { name := "n", ty := .named "Int" }] }] }
+
+/-- **directives_erase** — when every directive argument's type is visible to the request
+    (`DirArgsVisible S F`; in particular when no directive argument type carries features,
+    `DirArgsUngated`), the directive listing of introspection, the argument definitions the validator
+    consults and its verdict on any directive application are those of the erased schema, and the
+    listing only hands out visible types. This hypothesis is NOT implied by `Accepted`: `schema.New`
+    has no feature rule for directive arguments (open findings F-10g / F-13g, witness below). -/
+theorem directives_erase (S : Schema) (F : Feats) (hD : DirArgsVisible S F = true) :
+    (view (erase S F) top).directivesListing = (view S F).directivesListing ∧
+    (∀ dn, (view (erase S F) top).directiveArgs dn = (view S F).directiveArgs dn) ∧
+    (∀ dn args, directiveCheck (view (erase S F) top) dn args = directiveCheck (view S F) dn args) ∧
+    (∀ d ∈ (view S F).directivesListing, ∀ a ∈ d.args, S.visible F a.ty.base = true) := by
+  refine ⟨directivesListing_erase hD, directiveArgs_erase hD, ?_, fun d hd => dirArgs_visible hD hd⟩
+  intro dn args
+  have : (view (erase S F) top).directiveArgs dn = (view S F).directiveArgs dn := directiveArgs_erase hD dn
+  simp only [directiveCheck, this]
+
+/-- The feature-independent form of the hypothesis suffices for every request. -/
+theorem directives_ungated_visible (S : Schema) (hA : Accepted S = true) (hU : DirArgsUngated S = true) (F : Feats) :
+    DirArgsVisible S F = true :=
+  dirArgsVisible_of_ungated hA hU F
+
+/-- Non-vacuity: with the feature on, the witness's directive arguments are all visible, and the
+    statement applies (nothing is erased from the directive). -/
+example : Accepted demoDir = true ∧ DirArgsVisible demoDir onlyA = true ∧
+    (erase demoDir onlyA).directives = demoDir.directives := by decide
+
+/-- F-10g / F-13g (open): `schema.New` accepts a directive argument of a gated type; with the feature
+    off the listing still shows the argument and names the hidden type, the validator still knows the
+    argument — while in the erased schema the argument does not exist. -/
+theorem directives_gated_argument_differs :
+    Accepted demoDir = true ∧ DirArgsVisible demoDir noF = false ∧
+    (view demoDir noF).directivesListing ≠ (view (erase demoDir noF) top).directivesListing ∧
+    (view demoDir noF).lookupF "Mode" = none ∧
+    directiveCheck (view demoDir noF) "paint" ["mode"] = [] ∧
+    directiveCheck (view (erase demoDir noF) top) "paint" ["mode"] = ["undefined argument mode"] := by
+  decide
 
 /-! ## Lookups used by validation and execution -/
 
@@ -216,6 +263,18 @@ theorem lookup_erase_root (S : Schema) (F : Feats) (hA : Accepted S = true) (hR 
     (sels : Sels) :
     walk (view S F) (some S.query) sels = walk (view (erase S F) top) (some (erase S F).query) sels :=
   walk_erase hA sels (some S.query) (by intro p hp; cases hp; exact notHidden_of_visible (query_visible hA hR))
+
+/-- … and from the mutation / subscription root the view reports (none when the root type is gated
+    and its feature is off: the operation then has no scope, in both schemas). -/
+theorem lookup_erase_operation_roots (S : Schema) (F : Feats) (hA : Accepted S = true) (sels : Sels) :
+    walk (view S F) (view S F).mutationType sels =
+      walk (view (erase S F) top) (view (erase S F) top).mutationType sels ∧
+    walk (view S F) (view S F).subscriptionType sels =
+      walk (view (erase S F) top) (view (erase S F) top).subscriptionType sels := by
+  have hu := Accepted.nodup hA
+  rw [erase_mutation hu, erase_subscription hu]
+  exact ⟨walk_erase hA sels _ (fun p hp => notHidden_of_visible (filtered_root_visible hp)),
+         walk_erase hA sels _ (fun p hp => notHidden_of_visible (filtered_root_visible hp))⟩
 
 /-- **spread_possible_erase** — the fragment-spread possibility test gives the same verdict (this is
     what fix 02 establishes; `spread_possible_unfixed_differs` below is the pre-fix counterexample). -/
@@ -248,6 +307,13 @@ theorem gated_never_resolved (S : Schema) (F : Feats) (hA : Accepted S = true) (
     (world : String → String → Option String) (sels : Sels) :
     ∀ e ∈ exec (view S F) world S.query sels, EventVisible S F e :=
   exec_events_visible hA world sels S.query (notHidden_of_visible (query_visible hA hR))
+
+/-- The same for a mutation (executed on the root the view reports): a gated root type never runs. -/
+theorem gated_never_resolved_mutation (S : Schema) (F : Feats) (hA : Accepted S = true)
+    (world : String → String → Option String) (sels : Sels) (m : String)
+    (hm : (view S F).mutationType = some m) :
+    ∀ e ∈ exec (view S F) world m sels, EventVisible S F e :=
+  exec_events_visible hA world sels m (notHidden_of_visible (filtered_root_visible hm))
 
 /-- The same for the field definitions validation finds. -/
 theorem gated_never_found (S : Schema) (F : Feats) (hA : Accepted S = true) (hR : RootsUngated S = true)
@@ -411,15 +477,32 @@ def demoGatedRoot : Schema :=
       mkT .object "Query" [] [{ name := "ok", ty := .named "Int", req := [], args := [] }]],
     query := "Query", mutation := some "Mutation", subscription := none }
 
-/-- F-13f (open finding): the hypothesis `RootsUngated` cannot be dropped. `schema.New` accepts a root
-    operation type that carries required features; the code consults `MutationType()` without a
-    feature test, so with the feature off the root type is still reported and its fields still run,
-    while the erased schema has no mutation type at all. -/
-theorem gated_root_differs :
-    Accepted demoGatedRoot = true ∧ RootsUngated demoGatedRoot = false ∧
-    (view demoGatedRoot noF).mutationType ≠ (view (erase demoGatedRoot noF) top).mutationType ∧
-    walk (view demoGatedRoot noF) (view demoGatedRoot noF).mutationType (.cons "field" "touch" .nil .nil)
-      = [.resolve "Mutation" "touch"] := by
+/-- F-13f (fixed by 04): a gated mutation root is inside the theorems' domain. With the feature off
+    the view reports no mutation type — as the erased schema, which has none — and a mutation
+    operation has no scope (validation: "unsupported operation type"; nothing is found or resolved). -/
+example :
+    Accepted demoGatedRoot = true ∧ RootsUngated demoGatedRoot = true ∧
+    (view demoGatedRoot noF).mutationType = none ∧ (erase demoGatedRoot noF).mutation = none ∧
+    (view demoGatedRoot onlyA).mutationType = some "Mutation" ∧
+    walk (view demoGatedRoot noF) (view demoGatedRoot noF).mutationType (.cons "field" "touch" .nil .nil) = [] := by
+  decide
+
+/-- F-13f before the fix: the root types consulted without a feature test. With the feature off the
+    root type is still reported and its fields are still found, while the erased schema has no
+    mutation type at all. -/
+theorem gated_root_unfixed_differs :
+    (viewRootsUnfixed demoGatedRoot noF).mutationType ≠ (viewRootsUnfixed (erase demoGatedRoot noF) top).mutationType ∧
+    walk (viewRootsUnfixed demoGatedRoot noF) (viewRootsUnfixed demoGatedRoot noF).mutationType
+      (.cons "field" "touch" .nil .nil) = [.resolve "Mutation" "touch"] := by
+  decide
+
+/-- The part of the hypothesis that remains: a gated *query* root. `schema.New` accepts it, `erase`
+    leaves a schema whose query type does not exist (not accepted) — there is nothing to compare with. -/
+theorem gated_query_root_not_erasable :
+    let S : Schema :=
+      { types := [mkT .scalar "Int" [], mkT .object "Query" ["a"] [{ name := "ok", ty := .named "Int", req := [], args := [] }]],
+        query := "Query", mutation := none, subscription := none }
+    Accepted S = true ∧ RootsUngated S = false ∧ Accepted (erase S noF) = false := by
   decide
 
 end ApiFu.C13
